@@ -446,7 +446,7 @@ class RunLengthArray(NPSIndexable, np.lib.mixins.NDArrayOperatorsMixin):
         first_corresponding = np.searchsorted(other._events, first._events[1:-1], side="right")-1
         new_values_first = ufunc(first._values[1:], other._values[first_corresponding])
         events = np.concatenate([first._events[:-1], other._events[1:]])
-        values = np.concatenate([[ufunc(first._values[0], other._values[0])], new_values_first, new_values_other])
+        values = np.concatenate([ufunc(first._values[:1], other._values[:1]), new_values_first, new_values_other])
         args = np.argsort(events, kind="mergesort")
         return first.__class__(*first.join_runs(*first.remove_empty_intervals(events[args], values[args[:-1]])))
 
